@@ -28,6 +28,18 @@ LEAF2 = {"A1": "p", "A2": "q"}
 DEFAULT_FILE_KINDS = ["none", "global-only", "section-B"]
 
 
+def _use_names(kind):
+    """Rename the first-level subcommands (each worker process runs one harness, so rebinding the module tables is safe).
+    'clash': names that coincide with methods of the result Namespace."""
+    global L1, DEFAULTS1, LEAF1
+    if kind != "clash" or L1[0] != "A":
+        return
+    ren = {"A": "clone", "B": "update", "C": "items", "E": "get"}
+    L1 = [ren[n] for n in L1]
+    DEFAULTS1 = {ren[n]: v for n, v in DEFAULTS1.items()}
+    LEAF1 = {ren[n]: v for n, v in LEAF1.items()}
+
+
 def _tree(required, depth, default_file=None):
     from jsonargparse import ActionConfigFile, ArgumentParser
 
@@ -110,8 +122,11 @@ def _expected(required, depth, g, selector, sections, given, selector2, sections
 def _plain(ns):
     from jsonargparse import Namespace
 
+    from jsonargparse._namespace import del_clash_mark
+
     out = {}
     for k, v in vars(ns).items():
+        k = del_clash_mark(k)
         if k in ("cfg", "__default_config__", "__path__"):
             continue
         out[k] = _plain(v) if isinstance(v, Namespace) else v
@@ -229,7 +244,12 @@ def _deq(a, b):
     return a == b
 
 
-def selection(required, depth, channel, file_kind="none", shard=None, nshards=1):
+def selection(required, depth, channel, file_kind="none", shard=None, nshards=1, names="plain"):
+    _use_names(names)
+    return _selection(required, depth, channel, file_kind, shard, nshards)
+
+
+def _selection(required, depth, channel, file_kind="none", shard=None, nshards=1):
     install_format_stubs()
     tmpdir = tempfile.mkdtemp(prefix="c17_")
     _once(required, depth, "object", None, "B", {}, None, {}, file_kind, tmpdir)
@@ -417,6 +437,8 @@ def main(rep, tier):
         for fk in DEFAULT_FILE_KINDS[1:]:
             jobs.append(dict(module="c17", func="selection", kwargs=dict(required=required, depth=1, channel="object", file_kind=fk), timeout=600))
         jobs.append(dict(module="c17", func="argv_env", kwargs=dict(required=required), timeout=600))
+        for ch_ in ("object", "cfg_text", "parse_string-nodefaults"):  # subcommands named like methods of the result Namespace
+            jobs.append(dict(module="c17", func="selection", kwargs=dict(required=required, depth=1, channel=ch_, names="clash"), timeout=600))
         if required:
             jobs.append(dict(module="c17", func="env_depth2", kwargs={}, timeout=600))
         if tier == "thorough":
